@@ -100,6 +100,15 @@ Section C05.
               exists s, h = HStr s /\ parse s = Some v.
   Proof. exact (handle_invoke_version V cmp bot TO parse). Qed.
 
+  (* a server that starts never asks a version-restricted table for "no
+     version": the unversioned policy is refused at start when any endpoint is
+     version-restricted (build_starter), and the header policy always yields a
+     version *)
+  Theorem C05_started_server_version_ok : forall (p : policy V) (eps : list (decl V)) h ov,
+    (forall d, In d eps -> wf_range V cmp (e_versions (snd d))) ->
+    starts V p eps = true -> request_version V cmp parse p h = Ok ov -> version_ok V cmp eps ov.
+  Proof. exact (started_version_ok V cmp parse). Qed.
+
   Theorem C05_pipeline_unversioned_ignores_header : forall (r : node V) m rawpath h h',
     handle V cmp parse PUnversioned r m rawpath h = handle V cmp parse PUnversioned r m rawpath h'.
   Proof. exact (handle_unversioned_ignores_header V cmp parse). Qed.
@@ -198,6 +207,7 @@ Print Assumptions C05_pipeline_bad_version_iff.
 Print Assumptions C05_pipeline_refused_headers.
 Print Assumptions C05_pipeline_invoke_version.
 Print Assumptions C05_pipeline_unversioned_ignores_header.
+Print Assumptions C05_started_server_version_ok.
 Print Assumptions C05_matches_invariant.
 Print Assumptions C05_overlaps_invariant.
 Print Assumptions C05_header_policy_invariant.
